@@ -186,6 +186,32 @@ func init() {
 				}
 				emit(Case{Op: c13Op(res, bpm, cs), Tags: tags, NonTrivial: (nch >= 1 && nother >= 1) || (nch >= 2 && spread)})
 			}
+			// the driver's int32 millisecond clock passes 2^31 (24.8 days) during the recording: slow tick rates only, so
+			// that the first delta (just below 2^31 ms) still fits the strict format; every later gap is ordinary
+			nwrap := 40
+			if tier == "thorough" {
+				nwrap = 1500
+			}
+			for i := 0; i < nwrap; i++ {
+				res := r.Pick(24, 24, 48, 96)
+				bpm := float64(r.Range(20, 7000/res))
+				if r.Bool() {
+					bpm += float64(r.Intn(1000)) / 1000
+					if float64(res)*bpm > 7200 {
+						bpm = 20
+					}
+				}
+				w := genWire(r, 8, r.Range(3, 12), r.Pick(0, 10))
+				var b []byte
+				for _, wb := range w {
+					b = append(b, wb.b)
+				}
+				cs := c13Cut(r, b, 3000000)
+				pre := []byte{0x90, 60, 100}
+				first := int32(1<<31 - 1 - r.Pick(0, 1, 7, 500, 999, r.Intn(30000)))
+				cs = append([]liveChunk{{first, pre}}, cs...)
+				emit(Case{Op: c13Op(res, bpm, cs), Tags: []string{"clock-passes-2^31ms"}, NonTrivial: true})
+			}
 			for i := 0; i < nt; i++ {
 				res := c13GenRes(r)
 				bpm, btag := c13GenBPM(r)
@@ -469,7 +495,7 @@ func runC13(c Case, m *Model) (v Verdict) {
 				bad("recorded message %d (%s) is not a well-formed channel message", i, hx(e.Message))
 			}
 			// ---- oracle 3: delta within one tick of q·bpm·Δms/60000, Δms between RECORDED messages
-			dms := int64(w.ts) - int64(last)
+			dms := int64(w.ts - last) // int32 difference: exact across the wrap of the millisecond clock at 2^31
 			last = w.ts
 			if dms < 0 {
 				bad("time stamps delivered by the driver go backwards at message %d", i)
